@@ -414,15 +414,22 @@ def _midtick(code, want):
     fired = [False]
     holder = {}
 
+    close_on_up = nd.draw(0, 1) == 1 if which == 'close' else False
+
     def on_down(worker):
-        if which == 'close' and armed[0] and not fired[0]:
+        if which == 'close' and not close_on_up and armed[0] and not fired[0]:
             fired[0] = True
             holder['p'].close()               # the user closes the pool while the supervisor is between reaping and replacing
+            holder['started_at_close'] = w.started
 
     def on_up(worker):
         if which == 'terminate' and armed[0] and not fired[0]:
             fired[0] = True
             holder['p'].terminate()           # terminate() while the supervisor is starting replacements
+        if which == 'close' and close_on_up and armed[0] and not fired[0]:
+            fired[0] = True
+            holder['p'].close()               # ... or right after the first replacement of the pass was started
+            holder['started_at_close'] = w.started
     p = w.make_pool(3, lost_worker_timeout=LWT, on_process_down=on_down, on_process_up=on_up, keep_finalizer=(which == 'terminate'))
     holder['p'] = p
     try:
@@ -484,7 +491,7 @@ def _midtick(code, want):
         if want:
             return False
         if which == 'close':
-            if w.started != started:
+            if w.started != holder['started_at_close']:
                 return fail('C07:worker-started-after-close')
             th = p._task_handler
             th.body()
